@@ -297,36 +297,43 @@ pub(crate) fn add(ctx: &mut TulispContext) {
             ));
         }
         let mut local = Scope::default();
-        for varitem in varlist.base_iter() {
-            if varitem.symbolp() {
-                local.set(varitem, TulispObject::nil())?;
-            } else if varitem.consp() {
-                destruct_bind!((&optional name value &rest rest) = varitem);
-                if name.null() {
+        // Bindings made before a failing initialiser must be undone as well.
+        let bound = (|| -> Result<(), Error> {
+            for varitem in varlist.base_iter() {
+                if varitem.symbolp() {
+                    local.set(varitem, TulispObject::nil())?;
+                } else if varitem.consp() {
+                    destruct_bind!((&optional name value &rest rest) = varitem);
+                    if name.null() {
+                        return Err(Error::new(
+                            ErrorKind::Undefined,
+                            "let varitem requires name".to_string(),
+                        ));
+                    }
+                    if !rest.null() {
+                        return Err(Error::new(
+                            ErrorKind::Undefined,
+                            "let varitem has too many values".to_string(),
+                        ));
+                    }
+                    local.set(name, eval(ctx, &value)?)?;
+                } else {
                     return Err(Error::new(
-                        ErrorKind::Undefined,
-                        "let varitem requires name".to_string(),
+                        ErrorKind::SyntaxError,
+                        format!(
+                            "varitems inside a let-varlist should be a var or a binding: {}",
+                            varitem
+                        ),
                     ));
-                }
-                if !rest.null() {
-                    return Err(Error::new(
-                        ErrorKind::Undefined,
-                        "let varitem has too many values".to_string(),
-                    ));
-                }
-                local.set(name, eval(ctx, &value)?)?;
-            } else {
-                return Err(Error::new(
-                    ErrorKind::SyntaxError,
-                    format!(
-                        "varitems inside a let-varlist should be a var or a binding: {}",
-                        varitem
-                    ),
-                ));
-            };
-        }
+                };
+            }
+            Ok(())
+        })();
 
-        let ret = ctx.eval_progn(&rest);
+        let ret = match bound {
+            Ok(()) => ctx.eval_progn(&rest),
+            Err(e) => Err(e),
+        };
         local.remove_all()?;
 
         ret
